@@ -59,7 +59,10 @@ impl Name {
 
 //%fn crates/proto/src/rr/domain/name.rs :: impl Name :: set_fqdn
 //%contract
-        ensures final(self).label_data == old(self).label_data, final(self).label_ends == old(self).label_ends, final(self).is_fqdn == val
+        ensures final(self).label_data == old(self).label_data, final(self).label_ends == old(self).label_ends, final(self).is_fqdn == val,
+            final(self).labels() == old(self).labels(), final(self).wf() == old(self).wf(), final(self).labels_bounded() == old(self).labels_bounded(),
+//%entry
+        proof { reveal(Name::labels); }
 //%end
 
 //%fn crates/proto/src/rr/domain/name.rs :: impl Name :: extend_name
@@ -69,8 +72,10 @@ impl Name {
             match r {
                 Ok(_) => final(self).label_data@ =~= old(self).label_data@ + label@
                       && final(self).label_ends@ =~= old(self).label_ends@.push((old(self).label_data@.len() + label@.len()) as u8)
-                      && old(self).enc_len() + label@.len() + 1 <= 255,
-                Err(_) => final(self).label_data@ == old(self).label_data@ && final(self).label_ends@ == old(self).label_ends@
+                      && old(self).enc_len() + label@.len() + 1 <= 255
+                      && final(self).labels() =~= old(self).labels().push(label@)
+                      && (old(self).labels_bounded() && 1 <= label@.len() <= 63 ==> final(self).labels_bounded()),
+                Err(e) => final(self).label_data@ == old(self).label_data@ && final(self).label_ends@ == old(self).label_ends@
                       && old(self).enc_len() + label@.len() + 1 > 255,
             }
 //%before "Ok(())"
